@@ -68,7 +68,7 @@ type hist struct {
 	prev           []outcome // outcomes of probes after the previous step
 	ops            []opRec
 	maxLitSiblings int
-	emptied []string // patterns that lost their last method through Remove(pattern, methods...)
+	emptied        []string // patterns that lost their last method through Remove(pattern, methods...)
 }
 
 func (h *hist) detail(extra map[string]any) map[string]any {
